@@ -922,6 +922,9 @@ def check_c09(prog, rep, tier, cfg):
             rep.check(presence_only, R, "search:%s" % short(b2.npath), "%s searches for %s only and uses the position found (%s) — a CRLF line end then leaves the CR inside the token" % (short(b2.npath), sorted(needles & {10, 13}), uses),
                       where=c.where(), instance={"in": short(b2.npath), "search": sorted(needles), "use": "presence only"})
     rep.floor(R, "line-end tests in the lexer", nlf, 5)
+    # ---------------------------------------------------------------- C09.g in files mode a file is left alone only if it is byte-for-byte what would be written
+    import orch
+    orch.unchanged_skip_is_exact(prog, rep, "C09.g")
     # ---------------------------------------------------------------- C09.c config enum mapping
     R = "C09.c"
     cv = [b for k, b in prog.bodies.items() if b.crate == "pasfmt.lib" and "LineEnding" in k and k.endswith("::from")]
